@@ -457,6 +457,12 @@ def mk_vfield(base, variant, i):
     # (c.then_some(v) as Some).0 == v
     if base[0] == "call" and base[1].endswith("bool>::then_some") and len(base[2]) == 2 and variant.endswith("Option::Some") and i == 0:
         return base[2][1]
+    # (a.checked_sub(b) as Some).0 == a - b, (a.checked_add(b) as Some).0 == a + b: where the Some payload is read
+    # the operation did not wrap
+    if base[0] == "call" and len(base[2]) == 2 and variant.endswith("Option::Some") and i == 0:
+        m_ = base[1].rsplit("::", 1)[-1]
+        if m_ in ("checked_sub", "checked_add", "checked_mul") and ("<impl u" in base[1] or "<impl i" in base[1] or "num::" in base[1]):
+            return mk_bin({"checked_sub": "Sub", "checked_add": "Add", "checked_mul": "Mul"}[m_], base[2][0], base[2][1])
     return ("vfield", base, variant, i)
 
 
